@@ -239,9 +239,12 @@ def run(ctx):
     # ------------------------------------------------------------------ R5
     r5 = Rule("C11", "C11.R5", "meta block: instanceID / instanceName / omit_instanceID", floor=8,
               necessary="a missing instanceID (or one that cannot be omitted), or an instanceName with another calculation")
-    tail = [st for st in w2j.node.body if st.lineno > loop.end_lineno and isinstance(st, ast.If)
-            and any(w in norm(st.test) for w in ("omit_instanceID", "instance_name", "entity_declaration", "meta_children"))]
-    r5.check(len(tail) == 4, "workbook_to_json:meta slice", "the four meta-block statements were found", w2j.loc(), why_fail=f"{[norm(t.test)[:40] for t in tail]}")
+    after = [st for st in w2j.node.body if st.lineno > loop.end_lineno]
+    first_meta = next((i for i, st in enumerate(after) if any(w in norm(st) for w in ("omit_instanceID", "instance_name", "meta_children"))), None)
+    tail = after[first_meta:] if first_meta is not None else []
+    r5.check(len(tail) >= 2 and isinstance(tail[-1], ast.Return), "workbook_to_json:meta slice", "the statements that assemble the meta block (through the final return) were found", w2j.loc(),
+             why_fail=f"{[norm(t)[:40] for t in tail]}")
+    from ..interp import _Return
     for omit, pk, iname, iid in itertools.product([None, "yes", "no", "true()"], [None, "KEY"], [None, "concat(${a})"], [None, "customid"]):
         settings = {}
         if omit is not None:
@@ -259,8 +262,10 @@ def run(ctx):
         desc = f"omit={omit} public_key={'set' if pk else 'unset'} instance_name={'set' if iname else 'unset'} instance_id={'set' if iid else 'unset'}"
         omitted = omit in ("yes", "true()")
         try:
-            for st in tail:
-                it.exec(st, env, w2j.module)
+            try:
+                it.exec_block(tail, env, w2j.module)
+            except _Return:
+                pass
         except Raised as r:
             r5.check(omitted and pk and "PyXFormError" in r.mro, f"meta[{desc}]", "omitting instanceID while encrypting is rejected", w2j.loc(), why_fail=f"{r.exc_name}{r.exc_args}")
             continue
@@ -279,6 +284,33 @@ def run(ctx):
                          "instanceID is a read-only preload of the instance_id setting (default uid)", w2j.loc(), why_fail=repr(k))
             if k.get("name") == "instanceName":
                 r5.check(k.get("bind") == {"calculate": iname} and k.get("type") == "calculate", f"meta[{desc}]:instanceName", "instanceName calculates exactly the instance_name setting", w2j.loc(), why_fail=repr(k))
+    # what the row loop collected for the meta block (an audit row) and the entity declaration are in the block whatever the
+    # settings say about instanceID
+    for omit_, has_audit, has_entity in itertools.product([None, "yes"], [False, True], [False, True]):
+        if not (has_audit or has_entity):
+            continue
+        settings_ = {"omit_instanceID": omit_} if omit_ else {}
+        itm = ctx.interp("C11.R5")
+        itm.reset([])
+        root_children_ = []
+        audit_ = {"name": "audit", "type": "audit"}
+        ent_ = {"name": "entity", "type": "entity", "parameters": {"dataset": "d"}}
+        jd_ = {}
+        envm = {"settings": settings_, "meta_children": ([audit_] if has_audit else []), "entity_declaration": (ent_ if has_entity else None), "json_dict": jd_,
+                "stack": [{"parent_children": root_children_}]}
+        descm = f"omit={omit_} audit row={'yes' if has_audit else 'no'} entity={'yes' if has_entity else 'no'}"
+        try:
+            try:
+                itm.exec_block(tail, envm, w2j.module)
+            except _Return:
+                pass
+            meta_ = [c for c in root_children_ if c.get("name") == "meta"]
+            names_ = [k.get("name") for k in (meta_[0]["children"] if meta_ else [])]
+        except Raised as r:
+            names_ = f"raises {r.exc_name}"
+        want_ = (["audit"] if has_audit else []) + ([] if omit_ else ["instanceID"]) + (["entity"] if has_entity else [])
+        r5.check(names_ == want_ and (not has_entity or bool(jd_.get("entity_features"))), f"meta[{descm}]", f"meta children == {want_}" + ("; entity features recorded" if has_entity else ""), w2j.loc(),
+                 why_fail=f"{names_} entity_features={jd_.get('entity_features')}")
     # protected attributes: custom `attribute::` columns named like a documented root attribute never replace it
     sxi = scls.methods["xml_instance"]
     evil = {"id": "EVIL", "version": "EVIL", "xmlns": "EVIL", "odk:prefix": "EVIL", "odk:delimiter": "EVIL", "custom": "kept"}
